@@ -139,7 +139,10 @@ T* Cabinet<T>::free(const Token &token)
 template <typename T>
 void Cabinet<T>::clear()
 {
-    last_id_ = 0;
+    //! NOTE: last_id_ must not be reset here. The tokens handed out before clear()
+    //!       may still be held by users; if the id restarted from 1 a new entry
+    //!       would get the same (id, pos) as an old one and the old token would
+    //!       resolve to the new object.
     cells_.clear();
     first_free_ = std::numeric_limits<Pos>::max();
     count_ = 0;
